@@ -14,7 +14,7 @@ CHECKS = {
         text="The real RedisOutput replays PRNG-generated replication streams (binary arguments, SELECT/MULTI/keep-alive/GETACK/filtered commands, "
              "fragmented and paused arrival) under a product of batching/ticker/pipeline/transaction/db-map/filter configurations into a logging "
              "Redis double; the logged business writes must equal the projected stream as a sequence. Held-on-observed-executions, not a proof.",
-        design="DESIGN.md §3 C01", note=TRUST + "; LogOnly mode answers business writes +OK without type checks"),
+        design="DESIGN.md §3 C01", note=TRUST + "; LogOnly mode answers business writes +OK without type checks (null bulk for the pop / get-and-set family, as Redis does for a missing key)"),
     "C02": dict(level="fault_enumeration", engine="sweep",
         technique="runtime monitor + crash injection at every target request prefix, fresh tool instance restarted per distinct target state, logs of all runs checked for loss/duplication/wrong DB",
         text="For each base run every prefix of the requests the target executed is a crash point (exhaustive per observed request sequence, grouped by "
@@ -28,7 +28,7 @@ CHECKS = {
              "older targets answering 'Bad data format'. Held on the executions produced.",
         design="DESIGN.md §3 C03", note="internal/rdbx is the format reference (stream listpacks v4 and SLOT_INFO excluded: no real bytes offline); " + TRUST),
     "C04": dict(level="fault_enumeration", engine="fullsync+rdbx",
-        technique="fault injection + runtime monitor: every truncation and every single-byte alteration of valid checksummed snapshots through the real parser/expansion, sampled through Send; target error at every write; cancellation at every target request and right after the last byte is parsed",
+        technique="fault injection + runtime monitor: every truncation and every single-byte alteration of valid checksummed snapshots through the real parser/expansion, sampled through Send; target error at every write; cancellation at every target request, at every snapshot byte handed to the parser, and right after the last byte is parsed",
         text="Exhaustive per snapshot for the byte sweeps and per observed request sequence for error/cancel points (not over schedules). Oracle: error reported, "
              "no resume position at the snapshot offset, call returns, process survives (worker processes; crash/hang/memory growth is a violation after two isolated confirmations); "
              "a replay reported complete must have applied every key; after every Send the SAME instance is asked for its start point again (in-process re-run), bisync scenarios draw sync/pipeline/parallel and may be primed with an earlier completed snapshot.",
@@ -41,13 +41,13 @@ CHECKS = {
     "C20": dict(level="exploration", engine="fullsync+rdbx",
         technique="runtime oracle as C03 with a pre-populated target double under each key-exists policy; existing keys compared bit-for-bit before/after and against the request log",
         text="Prior contents (same/different type, with/without expiry, any subset of snapshot keys) x policies replace/ignore/error x RESTORE / native / chunked / "
-             "bad-data-format fallback paths x workers 1/4.",
+             "bad-data-format fallback paths x workers 1/4. The policy value the replay is constructed with comes out of the tool's own configuration loader (key left out = default, documented spelling, upper case).",
         design="DESIGN.md §3 C20", note=TRUST + ""),
     "C06": dict(level="exploration", engine="fakeredis source role",
         technique="runtime monitor over the real RedisInput/cache/RedisOutput pipeline against a source double implementing Redis' PSYNC admission rule; target log (history-tagged ids), PSYNC request log and cache ranges checked after each reconnect",
         text="Enumerated product of source mutation (same id, failover with switch offset, new id, trimmed backlog) x stored resume position class x cache contents x disk/memory cache "
              "x restart/in-loop reconnect; states the tool cannot reach naturally are constructed and marked. Oracle: continuation exactly from the stored position on the current history, "
-             "or a complete snapshot followed by the stream from its offset; offset convention and CONTINUE/FULLRESYNC answers checked. Faults: source cuts the replica connection inside the snapshot or the stream; target answers the bookkeeping writes of a reconnect with errors (reset after FULLRESYNC, run-id re-key) until a logical event.",
+             "or a complete snapshot followed by the stream from its offset; offset convention and CONTINUE/FULLRESYNC answers checked. Faults: source cuts the replica connection inside the snapshot or the stream; target answers the bookkeeping writes of a reconnect with errors (reset after FULLRESYNC, run-id re-key) until a logical event; source refuses the first 1-3 PSYNCs of a reconnect with NOMASTERLINK/LOADING (every request, refused or granted, is held to the offset convention).",
         design="DESIGN.md §3 C06", note="internal/fakeredis role_source transcribes masterTryPartialResynchronization; " + TRUST),
     "C17": dict(level="fault_enumeration", engine="fakeredis+hooks",
         technique="crash sweep over every request prefix of each bookkeeping maintenance operation (real start-up bookkeeping and GC body through build-tag hooks); next start with the new configuration must find a position >= the one before, in the same DB",
@@ -63,7 +63,7 @@ CHECKS = {
         technique="runtime monitor at the Channel boundary of both cache backends against a byte-by-offset model (PRF bytes identify their origin); sequential generated op histories + concurrent writer/readers/collector/pollers under the race detector with interval-bound checks",
         text="Hundreds (quick) / thousands (thorough) of generated histories over snapshot writes, appends, rotation, size-triggered collection, reader open/read/close, writer replacement, "
              "run-id switch/delete, incomplete snapshots, verifyCrc group; rotation and collection must actually be observed. Race reports in the anchored files are violations.",
-        design="DESIGN.md §3 C05", note="workloads stay inside the call protocol RedisInput uses; liveness is judged only by logical quiescence (ended reader / starved-by-collector), stalls are inconclusive"),
+        design="DESIGN.md §3 C05", note="workloads stay inside the call protocol RedisInput uses; liveness is judged by logical quiescence (ended reader / starved-by-collector) or by a differential second reader at the stalled offset; a stall without such evidence is inconclusive"),
     "C13": dict(level="exploration", engine="fakeredis propagation",
         technique="two site doubles that propagate what a master would (rewrites, no-op omission, MULTI/EXEC) closed into a loop through two real bisync RedisOutputs; origin-tagged client writes; echo / exactly-once / look-alike / ping-pong oracles decided at two-phase sentinels",
         text="Replay modes sync/pipeline/parallel, five filter classes incl. the documented prefix whitelist, snapshot and incremental phases, late reverse link, replication-lag windows producing shrunk mirrored transactions, Redis 7 SELECT-inside-MULTI propagation with clients in databases 0-3, link restarts (orderly / lost EXEC reply) through the real start-up path, reference filter projection with byte-identical delivery.",
@@ -71,7 +71,7 @@ CHECKS = {
     "C14": dict(level="fault_enumeration", engine="bisweep",
         technique="request-prefix crash sweep + clean-stop schedule of bisync incremental replay (all three modes) with restart chains through the real start-up bookkeeping; oracles over unit table, frontier/latest/journal keys and StartPoint of successive starts; exhaustive RebuildBisyncFrontier subset check",
         text="Every request prefix incl. recovery/migration requests (grouped by state), 1-3 idle restarts + one with traffic, mode switches, cancellation at logical instants under load; "
-             "standalone target for the prefix sweep; parallel mode on a 3-node cluster double (out-of-order acknowledgement across lanes incl. gap-closes-last orders + stop, failed unit + in-process restart), sync mode on the cluster with a same-instance second snapshot; one-request-fault sweeps (error reply / connection closed instead of a reply) over every request of a frontier flush and of start-up recovery; clause: every stored frontier (seq, offset) is the pair of one committed unit.",
+             "standalone target for the prefix sweep; parallel mode on a 3-node cluster double (out-of-order acknowledgement across lanes incl. gap-closes-last orders + stop, failed unit + in-process restart), sync mode on the cluster with a same-instance second snapshot; one-request-fault sweeps (error reply / connection closed instead of a reply) over every request of a frontier flush and of start-up recovery; clause: every stored frontier (seq, offset) is the pair of one committed unit. Latest-record mtimes that do not grow with the offset (hosts with different clocks); restarts after a source fail-over ([NEW, OLD]) through the start-up re-key, all modes.",
         design="DESIGN.md §3 C14", note=TRUST),
     "C16": dict(level="exploration", engine="grpc+channels",
         technique="runtime monitor: real ReplicaLeader behind a real gRPC server (stream wrapped to cut after message k) and real ReplicaFollower over both cache backends; follower cache read back and compared with PRF(run id, offset) and with the leader",
@@ -107,7 +107,7 @@ CHECKS = {
     "C15": dict(level="exploration", engine="leasestore+minilua+porcupine",
         technique="recorded call/return histories of Campaign/Renew/Resign/Leader checked with porcupine against a sequential lease model + belief-interval overlap monitor on a virtual clock",
         text="2-6 contenders with own connections against a lease-store double that executes the tool's Lua scripts (interpreter), virtual clock "
-             "advanced only at quiescent points, reply loss and connection resets; porcupine linearizability per burst and whole-run invariants. Also: one request of a Resign delivered late across clock steps, concurrent calls of the same instance on a sibling shard over the shared lease client, calls with a deadline whose reply arrives after it.",
+             "advanced only at quiescent points, reply loss and connection resets; porcupine linearizability per burst and whole-run invariants. Also: one request of a Resign delivered late across clock steps, concurrent calls of the same instance on a sibling shard over the shared lease client, calls with a deadline whose reply arrives after it. Clause (vi): the real election ticker of cmd/syncer.go (build-tag hook) with a scripted election - after a tick whose renewals/campaign failed no election call with a live context is made and the syncer's wait is closed with the failure; decided on the call log.",
         design="DESIGN.md §3 C15", note="internal/leasestore + internal/minilua execute the scripts the tool sends; Redis expiry rule now > expireAt"),
     "C18": dict(level="exploration", engine="fakeredis cluster role",
         technique="runtime monitor over the cluster-wide request log of a 3-4 node cluster double driven by the real bisync RedisOutput (snapshot + stream, all replay modes); every MULTI block reconstructed per node/connection and judged by independent HASH_SLOT and key-position tables",
